@@ -204,6 +204,11 @@ def _instant_events(st, dt, n):
     return evs
 
 
+def _engine_of(agent_id):
+    """Added agents alternate between the two tasking engines of the instant family."""
+    return 1 + (agent_id % 2)
+
+
 def _event_cfg(e, st):
     when = st + timedelta(seconds=e["offset"])
     k = e["kind"]
@@ -214,14 +219,14 @@ def _event_cfg(e, st):
     if k == "target_addition":
         j = e["agent"] - 30001
         pos, vel = [8000.0 + 150.0 * j, 0.0, 100.0 * j], [0.0, 5.0, 5.0]
-        return _target_add(1, when, e["agent"], pos, vel)
+        return _target_add(_engine_of(e["agent"]), when, e["agent"], pos, vel)
     if k == "sensor_addition":
         j = e["agent"] - 40001
-        return _sensor_add(1, when, e["agent"], j)
+        return _sensor_add(_engine_of(e["agent"]), when, e["agent"], j)
     if k == "target_removal":
-        return _removal(1, when, e["agent"], "target")
+        return _removal(_engine_of(e["agent"]), when, e["agent"], "target")
     if k == "sensor_removal":
-        return _removal(1, when, e["agent"], "sensor")
+        return _removal(_engine_of(e["agent"]), when, e["agent"], "sensor")
     raise ValueError(k)
 
 
@@ -248,8 +253,9 @@ def _run_instant(res, item):
     evs = _instant_events(st, dt, n)
     x0 = {10001: scen.LEO_A, 10002: scen.MEO_A, 10003: scen.GEO_A}
     tg = [scen.target_eci(t, *x0[t]) for t in (10001, 10002, 10003)]
-    cfg = scen.config(st, n + 1, [scen.engine(1, tg, [scen.ground_sensor(20001, 10.0, 20.0)])], physics=dt,
-                      truth_only=True, events=[_event_cfg(e, st) for e in evs])
+    engines = [scen.engine(1, tg[:2], [scen.ground_sensor(20001, 10.0, 20.0)]),
+               scen.engine(2, tg[2:], [scen.ground_sensor(20002, -15.0, 100.0)])]
+    cfg = scen.config(st, n + 1, engines, physics=dt, truth_only=True, events=[_event_cfg(e, st) for e in evs])
     del _LOG[:]
     sc = scen.build(cfg)
     membership = []
@@ -261,8 +267,9 @@ def _run_instant(res, item):
         except Exception as exc:  # noqa: BLE001
             err = f"step {k}: {type(exc).__name__}: {exc}"
             break
-        membership.append((set(sc.target_agents), set(sc.sensor_agents), set(sc.tasking_engines[1].target_list),
-                           set(sc.tasking_engines[1].sensor_list)))
+        membership.append((set(sc.target_agents), set(sc.sensor_agents),
+                           {e: set(sc.tasking_engines[e].target_list) for e in (1, 2)},
+                           {e: set(sc.tasking_engines[e].sensor_list) for e in (1, 2)}))
     base_case = {"family": "instant", "start": iso, "start_second": st.second, "dt": dt}
     if err:
         res.violate("instant/run", base_case, signature="C01/instant/run_error", observed=err, item=item)
@@ -300,27 +307,38 @@ def _run_instant(res, item):
     # membership after every step
     for j in range(1, steps_run + 1):
         tg_now, sn_now, eng_t, eng_s = membership[j - 1]
-        exp_t, exp_s = {10001, 10002, 10003}, {20001}
+        exp_t, exp_s = {10001, 10002, 10003}, {20001, 20002}
+        exp_et = {1: {10001, 10002}, 2: {10003}}
+        exp_es = {1: {20001}, 2: {20002}}
         for e in evs:
             if _oracle_step(e["offset"], dt) <= j:
+                eng = _engine_of(e["agent"])
                 if e["kind"] == "target_addition":
                     exp_t.add(e["agent"])
+                    exp_et[eng].add(e["agent"])
                 elif e["kind"] == "sensor_addition":
                     exp_s.add(e["agent"])
+                    exp_es[eng].add(e["agent"])
                 elif e["kind"] == "target_removal":
                     exp_t.discard(e["agent"])
+                    exp_et[eng].discard(e["agent"])
                 elif e["kind"] == "sensor_removal":
                     exp_s.discard(e["agent"])
-        ok = tg_now == exp_t and sn_now == exp_s and eng_t == exp_t and eng_s == exp_s
+                    exp_es[eng].discard(e["agent"])
+        ok = tg_now == exp_t and sn_now == exp_s and eng_t == exp_et and eng_s == exp_es
         res.case(
             "instant/membership",
             {**base_case, "step": j},
             ok,
             signature="C01/instant/membership",
-            observed={"targets": sorted(tg_now), "sensors": sorted(sn_now), "engine_targets": sorted(eng_t), "engine_sensors": sorted(eng_s)},
-            expected={"targets": sorted(exp_t), "sensors": sorted(exp_s)},
+            observed={"targets": sorted(tg_now), "sensors": sorted(sn_now),
+                      "engine_targets": {k: sorted(v) for k, v in eng_t.items()}, "engine_sensors": {k: sorted(v) for k, v in eng_s.items()}},
+            expected={"targets": sorted(exp_t), "sensors": sorted(exp_s),
+                      "engine_targets": {k: sorted(v) for k, v in exp_et.items()}, "engine_sensors": {k: sorted(v) for k, v in exp_es.items()}},
             item=item,
         )
+        # a newly added target starts from its configured state at its event time: after the step it sits on the
+        # two-body arc from that state (checked one step after the addition to stay clear of the instant itself)
     # impulse effect: final truth state equals the reference with each delta-v applied exactly once
     if steps_run >= 1:
         t_end = steps_run * dt
@@ -365,8 +383,12 @@ def _run_planned(res, item):
         evs.append({"kind": "impulse_eci" if k % 3 else "impulse_ntw", "agent": 10001, "offset": off, "rel": rel,
                     "vec": [0.0, DV * sgn, 0.0], "planned": True})
         sgn *= -1
+        if k % 5 == 0:
+            # an UNPLANNED impulse on a second target: truth gets it, the estimate must not be handed the event
+            evs.append({"kind": "impulse_eci", "agent": 10002, "offset": k * dt, "rel": "boundary",
+                        "vec": [0.0, 0.0, DV * (1 if k % 10 else -1)], "planned": False})
     evs.sort(key=lambda e: e["offset"])
-    tg = [scen.target_eci(10001, *scen.MEO_A)]
+    tg = [scen.target_eci(10001, *scen.MEO_A), scen.target_eci(10002, *scen.GEO_B)]
     cfg = scen.config(st, n + 1, [scen.engine(1, tg, [scen.ground_sensor(20001, 10.0, 20.0)])], physics=dt,
                       truth_only=False, events=[_event_cfg(e, st) for e in evs], seed=5)
     del _LOG[:]
@@ -395,17 +417,18 @@ def _run_planned(res, item):
         if want > steps_run:
             continue
         got = by_id.get(idx + 1, [])
-        truth_steps = [g[0] for g in got if g[1] == "TargetAgent" and g[2] == 10001]
-        est_steps = [g[0] for g in got if g[1] == "EstimateAgent" and g[2] == 10001]
-        other = [g for g in got if g[1] not in ("TargetAgent", "EstimateAgent") or g[2] != 10001]
-        case = {**base_case, "kind": e["kind"], "k": want, "rel": e["rel"], "offset": e["offset"]}
-        ok = truth_steps == [want] and est_steps == [want] and not other
+        aid = e["agent"]
+        truth_steps = [g[0] for g in got if g[1] == "TargetAgent" and g[2] == aid]
+        est_steps = [g[0] for g in got if g[1] == "EstimateAgent" and g[2] == aid]
+        other = [g for g in got if g[1] not in ("TargetAgent", "EstimateAgent") or g[2] != aid]
+        case = {**base_case, "kind": e["kind"], "k": want, "rel": e["rel"], "offset": e["offset"], "planned": e["planned"]}
+        ok = truth_steps == [want] and est_steps == ([want] if e["planned"] else []) and not other
         res.case(
             "planned/delivery",
             case,
             ok,
             nontrivial=e["rel"] == "boundary",
-            signature=f"C01/planned/delivery/{e['rel']}/truth:{_kind_of_failure(truth_steps, want)}/est:{_kind_of_failure(est_steps, want)}",
+            signature=f"C01/planned/delivery/{e['rel']}/{'planned' if e['planned'] else 'unplanned'}/truth:{_kind_of_failure(truth_steps, want)}/est:{_kind_of_failure(est_steps, want) if e['planned'] else ('none' if not est_steps else 'delivered_to_estimate')}",
             observed={"truth_steps": truth_steps, "estimate_steps": est_steps, "other": other[:2]},
             expected={"step": want},
             outcome="once_each" if ok else "bad",
@@ -414,7 +437,8 @@ def _run_planned(res, item):
     # the estimate follows the planned delta-v exactly once: after the last step its velocity matches truth
     if steps_run >= 2:
         t_end = steps_run * dt
-        imps = [(e["offset"], "ntw" if e["kind"] == "impulse_ntw" else "eci", e["vec"]) for e in evs if e["offset"] < t_end]
+        imps = [(e["offset"], "ntw" if e["kind"] == "impulse_ntw" else "eci", e["vec"]) for e in evs
+                if e["offset"] < t_end and e["agent"] == 10001]
         ref = _reference_truth(np.concatenate(scen.MEO_A), imps, t_end)
         tru = sc.target_agents[10001].eci_state
         est = sc.estimate_agents[10001].state_estimate
@@ -474,9 +498,12 @@ def _run_duration(res, item):
     sub = [(9.0, 21.0, 20000.0, 90.0), (11.0, 25.0, 21000.0, 60.0)]
     t1 = scen.target_eci(10001, *scen.overhead_orbit(st, *sub[0]))
     t2 = scen.target_eci(10002, *scen.overhead_orbit(st, *sub[1]))
+    # a second, un-prioritised target per engine so that the row a priority scales matters
+    t3 = scen.target_eci(10003, *scen.overhead_orbit(st, 8.0, 19.0, 20500.0, 75.0))
+    t4 = scen.target_eci(10000, *scen.overhead_orbit(st, 13.0, 26.0, 19800.0, 110.0))
     s1 = scen.ground_sensor(20001, 10.0, 20.0, fov={"fov_shape": "conic", "cone_angle": 20.0})
     s2 = scen.ground_sensor(20002, 12.0, 27.0, fov={"fov_shape": "conic", "cone_angle": 20.0})
-    cfg = scen.config(st, n + 1, [scen.engine(1, [t1], [s1]), scen.engine(2, [t2], [s2])], physics=dt,
+    cfg = scen.config(st, n + 1, [scen.engine(1, [t1, t3], [s1]), scen.engine(2, [t4, t2], [s2])], physics=dt,
                       events=ev_cfgs, seed=7)
     del _LOG[:]
     sc = scen.build(cfg)
@@ -565,7 +592,9 @@ def _run_duration(res, item):
             for e in pri:
                 if e["engine"] == eid and e["a"] <= hi and e["b"] > lo:
                     factor *= e["priority"]
-            expected = base * factor
+            expected = base.copy()
+            # engine 1 rows: [10001, 10003] -> prioritised row 0; engine 2 rows: [10000, 10002] -> prioritised row 1
+            expected[0 if eid == 1 else 1, :] *= factor
             got = per_step[k - 1]["reward"][eid]
             visible = bool(per_step[k - 1]["vis"][eid].any()) and bool(np.any(base != 0))
             ok = np.allclose(got, expected, rtol=1e-12, atol=0)
@@ -575,7 +604,7 @@ def _run_duration(res, item):
                 ok,
                 nontrivial=factor != 1.0 and visible,
                 key=f"eff|{iso}|{dt}|{eid}|{k}",
-                signature=f"C01/duration/priority_effect/{'not_applied' if factor != 1.0 and np.allclose(got, base) else 'wrong_factor'}",
+                signature=f"C01/duration/priority_effect/{'not_applied' if factor != 1.0 and np.allclose(got, base) else 'wrong_factor_or_row'}",
                 observed=got, expected=expected,
                 outcome="scaled" if factor != 1.0 and visible else "unscaled", item=item,
             )
